@@ -276,6 +276,172 @@ def run_dialects(prop):
     return out
 
 
+ADVERSARIAL_ENUMS = [
+    [("First", 0), ("Third", 2), ("Second", 1), ("Fourth", 3)],            # contiguous as a set, shuffled
+    [("A", 0), ("B", 5), ("C", None), ("D", None)],                        # gap then implicit
+    [("A", -2), ("B", None), ("C", None), ("D", None)],                    # negative start, implicit run through 0
+    [("A", 1), ("B", None), ("C", None)],                                  # contiguous but starting at 1
+    [("A", 3), ("B", 2), ("C", 1), ("D", 0)],                              # reversed
+    [("A", None), ("B", None), ("C", 1), ],                                # placeholder replaced below (duplicate would not compile)
+    [("Lo", -2147483648), ("Next", None), ("Hi", 2147483646), ("Top", None)],
+    [("Only", 0)],
+    [("Only", -7)],
+    [("A", 0), ("C", 2), ("B", 1)],                                        # 3-variant shuffle
+    [("A", 10), ("B", None), ("C", None), ("D", 100), ("E", None), ("F", 7), ("G", None), ("H", None)],
+    [("A", None), ("B", None), ("C", None), ("D", None), ("E", None), ("F", None), ("G", None), ("H", None)],
+]
+ADVERSARIAL_ENUMS[5] = [("A", None), ("B", 2), ("C", 1)]                   # implicit 0, then descending explicit
+
+
+def enum_module(tier_, seed_):
+    mod = bridgegen.Module("enums")
+    defs = []
+    for f in bridgegen.M0:
+        for ed in f().enums.values():
+            defs.append(ed.variants)
+    for v in ADVERSARIAL_ENUMS:
+        defs.append(v)
+    nrand = 12 if tier_ == "thorough" else 2
+    for i in range(nrand):
+        for ed in bridgegen.random_module(seed_, i).enums.values():
+            defs.append(ed.variants)
+    seen = set()
+    k = 0
+    for v in defs:
+        key = tuple(v)
+        if key in seen:
+            continue
+        seen.add(key)
+        mod.add(bridgegen.EnumDef("En%d" % k, list(v)))
+        k += 1
+    mod.add(bridgegen.OpaqueDef("Eo"))
+    for ed in list(mod.enums.values()):
+        mod.method("Eo", "rt_%s" % ed.name.lower(), None, [("e", bridgegen.EnumT(ed.name))], bridgegen.EnumT(ed.name))
+    return mod
+
+
+def enum_table_harness(backend, ed, fwd, rev):
+    """Kani harness text + static problems for one enum and one back end's tables."""
+    import enumfront
+    names = [n for n, _ in ed.variants]
+    problems = []
+    fw = []
+    for n in names:
+        v = fwd.get(enumfront.norm(n))
+        if not isinstance(v, int):
+            problems.append("%s: variant %s::%s %s" % (backend, ed.name, n, ("is missing from the binding's table" if v is None else str(v))))
+        fw.append(v if isinstance(v, int) else 0)
+    extra = set(fwd) - {enumfront.norm(n) for n in names}
+    if extra:
+        problems.append("%s: the binding lists variants %s that the Rust enum %s does not have" % (backend, sorted(extra), ed.name))
+    if problems:
+        return None, problems
+    n = len(names)
+    idx = {enumfront.norm(nm): i for i, nm in enumerate(names)}
+    chain = " else ".join("if d == %d { %s }" % (v, ("%d" % idx[nm]) if nm in idx else "usize::MAX") for v, nm in sorted(rev.items()) if nm is not None)
+    chain = (chain + " else { usize::MAX }") if chain else "usize::MAX"
+    body = [
+        "let k: usize = kani::any(); kani::assume(k < %d);" % n,
+        "let variants: [%s; %d] = [%s];" % (ed.name, n, ", ".join("%s::%s" % (ed.name, x) for x in names)),
+        "let binding: [i64; %d] = [%s];" % (n, ", ".join(str(x) for x in fw)),
+        "assert!(variants[k] as i32 as i64 == binding[k], \"C11: the %s binding's value for a variant differs from the discriminant rustc assigns\");" % backend,
+        "let d: i64 = variants[k] as i32 as i64;",
+        "let back: usize = %s;" % chain,
+        "assert!(back == k, \"C11: the %s binding converts a value received from Rust to a different variant\");" % backend,
+        "kani::cover!(k == %d);" % (n - 1),
+    ]
+    hname = "c11_%s_%s" % (backend, ed.name)
+    text = "    #[cfg(kani)]\n    #[kani::proof]\n    #[kani::unwind(%d)]\n    fn %s() {\n        unsafe {\n            %s\n        }\n    }\n" % (n + 2, hname, "\n            ".join(body))
+    return (hname, text), []
+
+
+def run_enum_tables(prop, out):
+    """C11 beyond the C header: Dart, Kotlin, C++, nanobind and JS tables against rustc's discriminants."""
+    import enumfront
+    mod = enum_module(tier(), seed())
+    d = os.path.join(GEN_ROOT, mod.name)
+    shutil.rmtree(d, ignore_errors=True)
+    os.makedirs(os.path.join(d, "src"))
+    with open(os.path.join(d, "Cargo.toml"), "w") as fh:
+        fh.write(CARGO_TOML % (mod.name, REPO, REPO))
+    shutil.copyfile(os.path.join(REPO, "Cargo.lock"), os.path.join(d, "Cargo.lock"))
+    shutil.copyfile(os.path.join(VERIF, "harness", "bridge_support", "vsupport.rs"), os.path.join(d, "src", "vsupport.rs"))
+    lib = os.path.join(d, "src", "lib.rs")
+    with open(lib, "w") as fh:
+        fh.write(mod.emit_lib())
+    enums = list(mod.enums)
+    rust_values = {e: [v for _, v in mod.enums[e].values()] for e in enums}
+    replay_dir = os.path.join(VERIF, "replays", prop)
+    texts, wanted = [], []
+    backends = {}
+    cfg = ["--config", "kotlin.domain=dev.verif", "--config", "lib_name=bridge"]
+    for b in ("dart", "kotlin", "cpp", "nanobind", "js"):
+        ok, log_ = run_tool(b, lib, os.path.join(d, b), cfg)
+        if not ok:
+            out["inconclusive"].append("diplomat-tool %s failed on the enum module: %s" % (b, log_[-600:]))
+            continue
+        backends[b] = os.path.join(d, b)
+    tabs = {}
+    if "dart" in backends:
+        tabs["dart"] = enumfront.dart_tables(backends["dart"], enums)
+    if "kotlin" in backends:
+        tabs["kotlin"] = enumfront.kotlin_tables(backends["kotlin"], enums)
+    if "cpp" in backends:
+        tabs["cpp"] = enumfront.cpp_tables(backends["cpp"], enums)
+        if "nanobind" in backends:
+            tabs["nanobind"] = enumfront.nanobind_tables(backends["nanobind"], enums, tabs["cpp"])
+    if "js" in backends:
+        tabs["js"] = enumfront.js_tables(backends["js"], enums, rust_values)
+    n_static = 0
+    for b, t in tabs.items():
+        for pr in t.problems:
+            out["inconclusive"].append("enum front end: " + pr)
+        for e in enums:
+            if e not in t.fwd:
+                continue
+            h, probs = enum_table_harness(b, mod.enums[e], t.fwd[e], t.rev[e])
+            for pr in probs:
+                n_static += 1
+                os.makedirs(replay_dir, exist_ok=True)
+                path = os.path.join(replay_dir, "static_enum_%s_%s.txt" % (b, e))
+                with open(path, "w") as fh:
+                    fh.write("STATIC DISAGREEMENT (enum table)\n\nenum %s { %s }\nback end: %s\nfinding: %s\nforward table: %r\nreverse table: %r\n\nReproduce: diplomat-tool %s on %s\n"
+                             % (e, ", ".join("%s%s" % (n, "" if v is None else " = %d" % v) for n, v in mod.enums[e].variants), b, pr, t.fwd[e], t.rev[e], b, lib))
+                out["violations"].append(("static:enums:%s:%s" % (b, e), path, pr))
+            if h:
+                texts.append(h[1])
+                wanted.append(h[0])
+    with open(lib, "w") as fh:
+        fh.write(mod.emit_lib(harness_text="\n".join(texts), mirror_text="#[cfg(kani)]\npub mod m {}"))
+    if wanted:
+        res, tools, log_, ok, wall = kani_run(d, "bridge", filters=["ffi::" + w for w in wanted], exact=True, harness_timeout=300,
+                                              target_dir=os.path.join(CACHE, "target-bridge"))
+        if not ok:
+            out["inconclusive"].append("enum module did not build under Kani: %s" % (compile_error_summary(log_) or log_[-1500:]))
+        else:
+            for name in wanted:
+                r = res.get("ffi::" + name)
+                if r is None:
+                    out["inconclusive"].append("enums::%s: no result" % name)
+                    continue
+                r.name = "enums::" + r.name
+                r.kani_name = "ffi::" + name
+
+                def replayer(rr, rdir, crate=d):
+                    rep = kani_replay(crate, rr.kani_name, keep_dir=rdir)
+                    src = os.path.join(rdir, "%s.playback.txt" % rr.kani_name.replace("::", "__"))
+                    dst = os.path.join(rdir, "%s.playback.txt" % rr.name.replace("::", "__"))
+                    if os.path.exists(src):
+                        os.replace(src, dst)
+                    rep["path"] = dst
+                    return rep
+                r.replayer = replayer
+                out["results"].append(r)
+    out["coverage"]["enum_tables"] = {"enums": len(enums), "backends": sorted(tabs), "harnesses": len(wanted), "static_findings": n_static,
+                                      "samples": [{"enum": e, "variants": mod.enums[e].variants} for e in enums[:6]]}
+    return n_static
+
+
 def run(prop):
     """Engine entry point used by props.run_property."""
     if prop == "C07":
@@ -340,11 +506,16 @@ def run(prop):
                 return rep
             r.replayer = replayer
             out["results"].append(r)
+    if prop == "C11":
+        n_static += run_enum_tables(prop, out)
+        programs.append({"module": "enums", "note": "enum tables of Dart, Kotlin, C++, nanobind, JS"})
     out["coverage"]["programs"] = len(programs)
     out["coverage"]["modules"] = programs
     out["coverage"]["disagreements_checked"] = len(out["results"]) + n_static
     out["coverage"]["static_findings"] = n_static
     out["coverage"]["extra_assumptions"] = [
+        "C11 tables: Dart/Kotlin/C++/nanobind tables are read from the emitted text by /verif/lib/enumfront.py (regular template output; an unrecognised shape is inconclusive), "
+        "the JS table by loading the emitted ES module under node with a stub wasm object; variant names are matched case- and underscore-insensitively",
         "E2/E3: the program quantifier is the enumerated module family (M0 fixed covering set + seeded random modules, see coverage.modules); "
         "each module is compiled with the real #[diplomat::bridge] macro from /repo and its C headers come from /repo's diplomat-tool built from the working tree",
         "C declarations are read by CBMC's C front end (goto-cc, LP64); mirror structs are #[repr(C)] re-declarations whose size and field offsets are asserted equal to the front end's",
